@@ -297,11 +297,6 @@ def loopAction (lf : Label) : Completion → Option Bool
 
 def isThr : Completion → Bool | .thr _ => true | _ => false
 
-/-- Instrumentation event (prefix `!`, never part of the observable log — the driver strips it): the exception
-created here is one goja raises by a Go panic (native method, runtime TypeError, an iterator's `return()` throwing
-during loop exit) rather than by the `throw` instruction.  Used only to recognise the one unrepaired defect listed in
-known_findings.d/C09.json (such an exception caught while `generator.returning` is set). -/
-def panicMark : List Event := ["!p"]
 
 /-- Unwinding: one step of an abrupt completion `cp` against the top continuation frame. -/
 def stepAbrupt (c : Conf) (cp : Completion) : StepOut :=
@@ -333,7 +328,7 @@ def stepAbrupt (c : Conf) (cp : Completion) : StepOut :=
         -- leaving the loop: IteratorClose; an error from return() replaces every completion but a throw
         match iterClose it with
         | (ev, some e) =>
-          if isThr cp then .cont { c with k := k' } ev else .cont { c with ctl := .abrupt (.thr e), k := k' } (ev ++ panicMark)
+          if isThr cp then .cont { c with k := k' } ev else .cont { c with ctl := .abrupt (.thr e), k := k' } ev
         | (ev, none) =>
           if act.isSome then .cont { c with ctl := .val .undef, k := k' } ev else .cont { c with k := k' } ev
     | .whileBodyK lf cd body =>
@@ -372,8 +367,8 @@ def step (c : Conf) : StepOut :=
     | .reent kd =>
       -- the body only ever runs while the object is `executing`
       match genPre .executing ⟨kd, .num 1⟩ with
-      | .reject => .cont { c with ctl := .abrupt (.thr .terr) } panicMark
-      | _ => .cont { c with ctl := .abrupt (.thr .terr) } panicMark
+      | .reject => .cont { c with ctl := .abrupt (.thr .terr) } []
+      | _ => .cont { c with ctl := .abrupt (.thr .terr) } []
   | .evalC (.cmp neg a b) => .cont { c with ctl := .evalE a, k := .condL neg b :: k } []
   | .args done rest th =>
     match rest with
@@ -438,7 +433,7 @@ def step (c : Conf) : StepOut :=
         if sp then
           match spreadOf v with
           | some vs => .cont { c with ctl := .args (done ++ vs) rest th, k := k' } []
-          | none => .cont { c with ctl := .abrupt (.thr .terr), k := k' } panicMark
+          | none => .cont { c with ctl := .abrupt (.thr .terr), k := k' } []
         else .cont { c with ctl := .args (done ++ [v]) rest th, k := k' } []
       | .tmplK acc l rest => .cont { c with ctl := .tmplGo (acc ++ toStr v ++ l) rest, k := k' } []
       | .asgK x => .cont { ctl := .val v, env := env.set x v, k := k' } []
